@@ -136,6 +136,9 @@ pub struct World {
     pub spin_ns: u64,
     pub aborted: Option<String>,
     pub injected: Vec<(usize, InjKind, bool)>,
+    /// record every packet handed to the tracer (two-tracer decomposition)
+    pub capture: bool,
+    pub captured: Vec<RawInj>,
 }
 
 thread_local! {
@@ -214,7 +217,29 @@ impl World {
             spin_ns,
             aborted: None,
             injected: Vec::new(),
+            capture: false,
+            captured: Vec::new(),
         }
+        .with_raw()
+    }
+
+    fn with_raw(mut self) -> Self {
+        let raws = self.spec.raw.clone();
+        for r in raws {
+            let meta = PktMeta {
+                class: PktClass::Junk(r.label.clone()),
+                answers: None,
+                from: r.from,
+                kind: RespKind::TimeExceeded(0),
+                quoted_udp_cksum: None,
+                quoted_tos: None,
+                ext: None,
+                len: r.bytes.len(),
+                names_seq: None,
+            };
+            self.enqueue(self.start_ns + r.at_ns, r.bytes, meta);
+        }
+        self
     }
 
     fn tick(&mut self) {
@@ -1359,6 +1384,14 @@ impl Socket for SimSocket {
                 let n = p.bytes.len().min(buf.len());
                 buf[..n].copy_from_slice(&p.bytes[..n]);
                 let from = p.meta.from;
+                if w.capture {
+                    w.captured.push(RawInj {
+                        at_ns: p.due_ns - w.start_ns,
+                        bytes: p.bytes.clone(),
+                        from,
+                        label: "foreign-tracer".into(),
+                    });
+                }
                 w.events.push(Event::Read {
                     t_ns: vclock::now_ns(),
                     meta: p.meta,
@@ -1385,6 +1418,14 @@ impl Socket for SimSocket {
                 vclock::advance(w.spec.recv_cost_ns);
                 let n = p.bytes.len().min(buf.len());
                 buf[..n].copy_from_slice(&p.bytes[..n]);
+                if w.capture {
+                    w.captured.push(RawInj {
+                        at_ns: p.due_ns - w.start_ns,
+                        bytes: p.bytes.clone(),
+                        from: p.meta.from,
+                        label: "foreign-tracer".into(),
+                    });
+                }
                 w.events.push(Event::Read {
                     t_ns: vclock::now_ns(),
                     meta: p.meta,
